@@ -15,7 +15,8 @@ def register(m):
     m("C14", "c14-mixed-sign-dropped", V, "                result += mixed * factor * sign", "                result += mixed * factor", "R2")
     m("C14", "c14-mixed-expansion-order", V, "                    mixed = VectorDot(u, VectorCross(v, w))", "                    mixed = VectorDot(u, VectorCross(w, v))", "R2")
     m("C14", "c14-dot-self-not-squared", V, "                    dot = VectorNorm(v)**2", "                    dot = VectorNorm(v)", "R2")
-    m("C14", "c14-cross-self-kept", V, "            # Cross product is zero when arguments are equal\n            if sign == 0:\n                continue\n", "", "R2")
+    m("C14", "c14-cross-self-kept", V, "            # Cross product is zero when arguments are equal\n            if sign == 0:\n                continue\n", "", "SILENT",
+      note="behaviour-preserving after all: the general branch multiplies the term by sign, which is 0 - the old shape rule demanded the explicit case")
     m("C14", "c14-sign-negated", MI, "        sign = Permutation(indices).signature()", "        sign = -Permutation(indices).signature()", "R2")
     m("C14", "c14-repeats-not-zero", MI, "    if len(set(indices)) != len(indices):\n        sign = 0\n    else:\n        sign = Permutation(indices).signature()", "    sign = Permutation(indices).signature()", "R2")
     m("C14", "c14-dot-derivative-one-sided", V, "        derived_rhs = VectorDot(lhs, rhs.diff(symbol))\n\n        return derived_lhs + derived_rhs", "        derived_rhs = VectorDot(lhs, rhs.diff(symbol))\n\n        return derived_lhs", "R3")
